@@ -708,19 +708,19 @@ func (ctx Ctx) copyExpr(n ast.Node, dst ast.Expr, src ast.Expr) coq.Expr {
 }
 
 func (ctx Ctx) callExpr(s *ast.CallExpr) coq.Expr {
-	if isIdent(s.Fun, "make") {
+	if ctx.isBuiltin(s.Fun, "make") {
 		return ctx.makeExpr(s.Args)
 	}
-	if isIdent(s.Fun, "new") {
+	if ctx.isBuiltin(s.Fun, "new") {
 		return ctx.newExpr(s.Args[0])
 	}
-	if isIdent(s.Fun, "len") {
+	if ctx.isBuiltin(s.Fun, "len") {
 		return ctx.lenExpr(s)
 	}
-	if isIdent(s.Fun, "cap") {
+	if ctx.isBuiltin(s.Fun, "cap") {
 		return ctx.capExpr(s)
 	}
-	if isIdent(s.Fun, "append") {
+	if ctx.isBuiltin(s.Fun, "append") {
 		elemTy := sliceElem(ctx.typeOf(s.Args[0]).Underlying())
 		if s.Ellipsis == token.NoPos {
 			return coq.NewCallExpr(coq.GallinaIdent("SliceAppend"),
@@ -734,25 +734,25 @@ func (ctx Ctx) callExpr(s *ast.CallExpr) coq.Expr {
 			ctx.expr(s.Args[0]),
 			ctx.expr(s.Args[1]))
 	}
-	if isIdent(s.Fun, "copy") {
+	if ctx.isBuiltin(s.Fun, "copy") {
 		return ctx.copyExpr(s, s.Args[0], s.Args[1])
 	}
-	if isIdent(s.Fun, "delete") {
+	if ctx.isBuiltin(s.Fun, "delete") {
 		if _, ok := ctx.typeOf(s.Args[0]).(*types.Map); !ok {
 			ctx.unsupported(s, "delete on non-map")
 		}
 		return coq.NewCallExpr(coq.GallinaIdent("MapDelete"), ctx.expr(s.Args[0]), ctx.expr(s.Args[1]))
 	}
-	if isIdent(s.Fun, "uint64") {
+	if ctx.isBuiltin(s.Fun, "uint64") {
 		return ctx.integerConversion(s, s.Args[0], 64)
 	}
-	if isIdent(s.Fun, "uint32") {
+	if ctx.isBuiltin(s.Fun, "uint32") {
 		return ctx.integerConversion(s, s.Args[0], 32)
 	}
-	if isIdent(s.Fun, "uint8") || isIdent(s.Fun, "byte") {
+	if ctx.isBuiltin(s.Fun, "uint8") || ctx.isBuiltin(s.Fun, "byte") {
 		return ctx.integerConversion(s, s.Args[0], 8)
 	}
-	if isIdent(s.Fun, "panic") {
+	if ctx.isBuiltin(s.Fun, "panic") {
 		msg := "oops"
 		if e, ok := s.Args[0].(*ast.BasicLit); ok {
 			if e.Kind == token.STRING {
@@ -1097,6 +1097,13 @@ func (ctx Ctx) coqRecurFunc(fullFuncName string, e *ast.Ident) coq.Expr {
 func (ctx Ctx) function(s *ast.Ident) coq.Expr {
 	ctx.dep.addDep(s.Name)
 	return ctx.coqRecurFunc(s.Name, s)
+}
+
+// isBuiltin checks that e is the predeclared identifier name, and not a
+// user-defined function or type that merely has the same name
+func (ctx Ctx) isBuiltin(e ast.Expr, name string) bool {
+	ident, ok := e.(*ast.Ident)
+	return ok && ident.Name == name && ctx.goBuiltin(ident)
 }
 
 func (ctx Ctx) goBuiltin(e *ast.Ident) bool {
